@@ -186,6 +186,11 @@ class Return(Fact):
 
 
 @dataclass
+class Jump(Fact):
+    kind: str = ""  # break | continue
+
+
+@dataclass
 class Unmodelled(Fact):
     what: str = ""
 
@@ -220,6 +225,12 @@ class Extraction:
     returns: dict
     final_env: dict
     self_alias: dict
+    vardefs: dict = field(default_factory=dict)
+
+    def vardef(self, t: Term) -> Optional[Term]:
+        if t[0] == "v":
+            return self.vardefs.get(t[2])
+        return None
 
     def of(self, typ):
         return [f for f in self.facts if isinstance(f, typ)]
@@ -282,6 +293,9 @@ class Extractor:
         self.switches: dict[int, dict] = {}
         self.call_ret_stack: list[Optional[int]] = [None]
         self.cur_site_node: Optional[ast.AST] = None
+        self.bind_depth: dict = {}
+        self.vardefs: dict[int, Term] = {}
+        self.enter_closures: set = set()
 
     # -- utilities -------------------------------------------------------
     def fresh(self) -> int:
@@ -306,6 +320,33 @@ class Extractor:
 
     def bind(self, name: str, value: Term):
         self.scopes[-1][name] = value
+        self.bind_depth[(id(self.scopes[-1]), name)] = self._for_depth()
+
+    def _for_depth(self) -> int:
+        return sum(1 for f in self.frames if f[0] == "for")
+
+    def _foldable(self, name: str) -> bool:
+        """A local container may be folded into the environment only at the loop depth it was bound at."""
+        for sc in reversed(self.scopes):
+            if name in sc:
+                return self.bind_depth.get((id(sc), name), 0) == self._for_depth() and not self.inline_stack_changed(sc)
+        return False
+
+    def inline_stack_changed(self, sc) -> bool:
+        return False
+
+    def _escape(self, name: str, cur: Term, node) -> Term:
+        """Give a mutated local container an identity."""
+        if cur[0] == "obj":
+            return cur
+        oid = self.fresh()
+        self.objects[oid] = ObjInfo(oid, cur, self.site(node), name, tuple(self.frames), self.seq)
+        val = ("obj", oid)
+        for sc in reversed(self.scopes):
+            if name in sc:
+                sc[name] = val
+                break
+        return val
 
     def is_module(self, t: Term) -> bool:
         return t[0] == "n" and t[1] in self.module_vars or (t[0] == "obj" and self._obj_is_module(t[1]))
@@ -334,6 +375,7 @@ class Extractor:
             self.returns,
             dict(self.scopes[0]),
             dict(self.self_alias),
+            dict(self.vardefs),
         )
 
     def _bind_params(self, node, bindings: dict[str, Term], fname: str):
@@ -441,7 +483,7 @@ class Extractor:
     def _wrap_collection(self, val: Term, before: int, hint, s) -> Term:
         """A list / comprehension whose elements are freshly created objects becomes one
         collection object, so that later terms stay small (`ports[i]` instead of the comprehension)."""
-        if val[0] in ("lc", "list", "tuple") or (val[0] == "call" and val[1] == ("n", "Array")):
+        if val[0] in ("lc", "list") or (val[0] == "call" and val[1] == ("n", "Array")):
             fresh_obj = any(x[0] == "obj" and x[1] > before for x in subterms(val))
             if fresh_obj:
                 oid = self.fresh()
@@ -456,8 +498,30 @@ class Extractor:
             return "self." + t.attr
         return None
 
+    def _opaque_call(self, val: Term) -> bool:
+        """Call results that are not substituted into later terms (kept as a named variable)."""
+        if val[0] != "call" or _container_ctor(val):
+            return False
+        f = val[1]
+        if f[0] == "n" and (f[1] in PURE_FUNCS or f[1] in ("Signal", "View")):
+            return False
+        if f[0] == "a" and f[2] in ("any", "all", "bool", "eq", "as_value", "as_unsigned", "as_signed", "bit_select",
+                                   "word_select", "replicate", "shape", "items", "keys", "values", "get"):
+            return False
+        if f[0] == "a" and f[1][0] == "n" and f[1][1] in ("OneHotMux",):
+            return False
+        return True
+
     def assign_target(self, t, val: Term, s):
         if isinstance(t, ast.Name):
+            if _container_ctor(val):
+                oid = self.fresh()
+                self.objects[oid] = ObjInfo(oid, val, self.site(s), t.id, tuple(self.frames), self.seq)
+                val = ("obj", oid)
+            if self._opaque_call(val):
+                vid = self.fresh()
+                self.vardefs[vid] = val
+                val = ("v", t.id, vid)
             self.bind(t.id, val)
             if self._is_module_value(val):
                 self.module_vars.add(t.id)
@@ -476,7 +540,7 @@ class Extractor:
             if base[0] == "a" and base[2] == "submodules" and self.is_module(base[1]):
                 self.emit(Submodule, s, name=C(t.attr), value=val)
                 return
-            if base == ("self",):
+            if base == ("self",) and val[0] == "obj":
                 self.self_alias[t.attr] = val
             self.emit(Store, s, target=attr(base, t.attr), value=val)
         elif isinstance(t, ast.Subscript):
@@ -486,10 +550,12 @@ class Extractor:
                 self.emit(Submodule, s, name=idx, value=val)
                 return
             # local dict / list updates are folded into the environment
-            if isinstance(t.value, ast.Name) and base[0] == "dict":
-                items = tuple(kv for kv in base[1] if kv[0] != idx) + ((idx, val),)
-                self.rebind(t.value.id, ("dict", items))
-                return
+            if isinstance(t.value, ast.Name) and (base[0] in ("dict", "list") or _container_ctor(base)):
+                if base[0] == "dict" and self._foldable(t.value.id):
+                    items = tuple(kv for kv in base[1] if kv[0] != idx) + ((idx, val),)
+                    self.rebind(t.value.id, ("dict", items))
+                    return
+                base = self._escape(t.value.id, base, s)
             self.emit(Store, s, target=index(base, idx), value=val)
         else:
             self.emit(Unmodelled, s, what="assign target " + type(t).__name__)
@@ -630,9 +696,22 @@ class Extractor:
         if isinstance(e, ast.UnaryOp) and isinstance(e.op, ast.Not):
             return not self.static_test(e.operand)
         t = self.ev(e)
+        return self._decide_term(t)
+
+    def _decide_term(self, t: Term) -> bool:
         known = self._concrete_truth(t)
         if known is not None:
             return known
+        if t[0] == "op" and t[1] == "and":
+            for x in t[2:]:
+                if not self._decide_term(x):
+                    return False
+            return True
+        if t[0] == "op" and t[1] == "or":
+            for x in t[2:]:
+                if self._decide_term(x):
+                    return True
+            return False
         pol = True
         if t[0] == "op" and t[1] == "not":
             t, pol = t[2], False
@@ -756,10 +835,12 @@ class Extractor:
         self.emit(Unmodelled, s, what="While")
 
     def st_Continue(self, s):
-        self.emit(Unmodelled, s, what="Continue")
+        self.emit(Jump, s, kind="continue")
+        raise _ReturnSignal()
 
     def st_Break(self, s):
-        self.emit(Unmodelled, s, what="Break")
+        self.emit(Jump, s, kind="break")
+        raise _ReturnSignal()
 
     def st_Try(self, s):
         self.frames.append(("try",))
@@ -777,8 +858,16 @@ class Extractor:
     def st_Match(self, s):
         subj = self.ev(s.subject)
         prev: list[Term] = []
+        def literal(t):
+            return t[0] == "c" or (t[0] == "a" and t[1][0] == "n" and t[1][1][:1].isupper())
+
         for case in s.cases:
             pat = self._pattern_term(case.pattern)
+            if literal(subj) and literal(pat) and case.guard is None:
+                if subj != pat:
+                    continue  # this arm cannot match a literal subject
+                self.walk_body_catching(case.body)
+                return
             self.frames.append(("match", subj, pat, tuple(prev)))
             try:
                 try:
@@ -788,6 +877,12 @@ class Extractor:
             finally:
                 self.frames.pop()
             prev.append(pat)
+
+    def walk_body_catching(self, body):
+        try:
+            self.walk_body(body)
+        except _ReturnSignal:
+            pass
 
     def _pattern_term(self, p) -> Term:
         if isinstance(p, ast.MatchValue):
@@ -809,6 +904,13 @@ class Extractor:
         cid = self.fresh()
         self.closures[cid] = Closure(cid, s, list(self.scopes), s.name)
         self.bind(s.name, ("lam", cid))
+        if s.name in self.enter_closures and not self.inline_stack:
+            # analyse the local function in the context of its definition, with symbolic parameters
+            a = s.args
+            names = [x.arg for x in a.posonlyargs + a.args]
+            args = [("p", s.name, k, n) for k, n in enumerate(names)]
+            call = ("call", ("lam", cid), tuple(args), ())
+            self.inline_closure(self.closures[cid], args, {}, s, call, True)
 
     st_AsyncFunctionDef = st_FunctionDef
 
@@ -1082,6 +1184,8 @@ class Extractor:
         v = self.lookup(e.id)
         if v is not None:
             return v
+        if e.id == "self" and self.cls is not None:
+            return ("self",)  # free `self` of a nested function
         return ("n", e.id)
 
     def ex_Attribute(self, e):
@@ -1282,9 +1386,10 @@ class Extractor:
         # self.helper(...) python-level method of the class: inline
         if f[0] == "a" and f[1] == ("self",) and self.cls is not None:
             fi = self.repo.find_method(self.cls, f[2])
-            if fi is not None and not _is_property(fi.node) and f[2] != self.func.node.name:
+            if fi is not None and not _is_property(fi.node) and f[2] != self.func.node.name and any(self.is_module(a) for a in args):
                 if len(self.inline_stack) < self.inline_depth and fi.node not in self.inline_stack:
-                    return self.inline_function(fi, [("self",)] + args, kwargs, node, callterm, stmt_level)
+                    recv = [] if _is_static(fi.node) else [("self",)]
+                    return self.inline_function(fi, recv + args, kwargs, node, callterm, stmt_level)
 
         # relations
         if f[0] == "a" and f[2] in RELATION_NAMES:
@@ -1302,6 +1407,9 @@ class Extractor:
             if f[0] == "n":
                 self.emit(Helper, node, call=callterm)
                 return callterm if not stmt_level else C(None)
+            if f[0] == "a" and f[2] in ("combiner", "connect"):
+                self.emit(Helper, node, call=callterm)
+                return callterm
             if f[0] == "a" and (f[2] in LOG_NAMES):
                 self.emit(Helper, node, call=callterm)
                 return C(None)
@@ -1320,20 +1428,24 @@ class Extractor:
             fn = node.func
             if isinstance(fn, ast.Attribute) and isinstance(fn.value, ast.Name):
                 cur = self.lookup(fn.value.id)
-                if cur is not None and cur[0] == "list" and f[2] in ("append", "extend") and len(args) == 1:
-                    if f[2] == "append":
-                        new = cur + (args[0],)
-                    elif args[0][0] in ("list", "tuple"):
-                        new = cur + args[0][1:]
-                    else:
-                        new = cur + (("star", args[0]),)
-                    if not self._in_loop_since_def(fn.value.id):
+                if cur is not None and cur[0] in ("list", "lc") and f[2] in ("append", "extend") and len(args) == 1:
+                    if self._foldable(fn.value.id):
+                        if cur[0] == "lc":
+                            cur = ("list", ("star", cur))
+                        if f[2] == "append":
+                            new = cur + (args[0],)
+                        elif args[0][0] in ("list", "tuple"):
+                            new = cur + args[0][1:]
+                        else:
+                            new = cur + (("star", args[0]),)
                         self.rebind(fn.value.id, new)
-                    else:
-                        self.rebind(fn.value.id, cur + (("star", ("loopitems", args[0], self._loop_ids())),))
-                    if stmt_level:
-                        self.emit(Effect, node, call=callterm)
-                    return C(None)
+                        if stmt_level:
+                            self.emit(Effect, node, call=callterm)
+                        return C(None)
+                if cur is not None and (cur[0] in ("list", "dict", "set") or _container_ctor(cur)):
+                    base = self._escape(fn.value.id, cur, node)
+                    f = ("a", base, f[2])
+                    callterm = ("call", f, tuple(args), kwt)
 
         if stmt_level:
             self.emit(Effect, node, call=callterm)
@@ -1364,7 +1476,8 @@ class Extractor:
         return False
 
     def inline_closure(self, clo: Closure, args, kwargs, node, callterm, stmt_level) -> Term:
-        if len(self.inline_stack) >= self.inline_depth or clo.node in self.inline_stack:
+        if len(self.inline_stack) >= self.inline_depth or clo.node in self.inline_stack or _is_recursive(clo.node):
+            callterm = ("call", ("n", clo.name), callterm[2], callterm[3])
             if stmt_level:
                 self.emit(Effect, node, call=callterm)
             return callterm
@@ -1468,6 +1581,33 @@ class Extractor:
         return True
 
 
+def _container_ctor(t: Term) -> bool:
+    if t[0] != "call":
+        return False
+    f = t[1]
+    if f[0] == "i":
+        f = f[1]
+    if f[0] != "n":
+        return False
+    if f[1] in ("defaultdict", "deque"):
+        return True
+    return f[1] in ("set", "dict", "list") and not t[2] and not t[3]
+
+
+def _is_recursive(fn) -> bool:
+    name = getattr(fn, "name", None)
+    if name is None:
+        return False
+    for n in ast.walk(fn):
+        if isinstance(n, ast.Call) and isinstance(n.func, ast.Name) and n.func.id == name:
+            return True
+    return False
+
+
+def _is_static(fn) -> bool:
+    return any(isinstance(d, ast.Name) and d.id == "staticmethod" for d in fn.decorator_list)
+
+
 def _is_property(fn) -> bool:
     for d in fn.decorator_list:
         if isinstance(d, ast.Name) and d.id in ("property", "cached_property", "staticmethod", "classmethod"):
@@ -1522,13 +1662,17 @@ _CMPOPS = {
 
 
 def extract_all(repo: Repo, func: FuncInfo, bindings: Optional[dict] = None, max_configs: int = MAX_CONFIGS,
-                inline_depth: int = MAX_INLINE_DEPTH) -> list[Extraction]:
+                inline_depth: int = MAX_INLINE_DEPTH,
+    enter: tuple = (),
+) -> list[Extraction]:
     """All static configurations of `func` (DFS over python-if decisions)."""
     results: list[Extraction] = []
     script: list[bool] = []
     while True:
         ch = Chooser(script)
-        ex = Extractor(repo, func, ch, inline_depth=inline_depth).run(bindings)
+        xt = Extractor(repo, func, ch, inline_depth=inline_depth)
+        xt.enter_closures = set(enter)
+        ex = xt.run(bindings)
         for f in ex.facts:
             f.config = ex.config
         results.append(ex)
